@@ -115,14 +115,70 @@ def gen_trans(rng, cls):
     raise ValueError(cls)
 
 
-def gen_points(rng, n, ncols, mag):
+PDTYPES = ['float64', 'float64', 'float64', 'float32', 'float32', 'int32', 'int64', 'uint8', 'int16', 'float16']
+PLAYOUTS = ['C', 'C', 'C', 'F', 'strided', 'reversed']
+_INT_RANGE = {'int32': 10 ** 6, 'int64': 10 ** 6, 'int16': 30000, 'uint8': 255}
+
+
+def gen_points(rng, n, ncols, mag, dtype='float64'):
+    """Rows whose every value is exactly representable in `dtype` (so that the array handed to the code holds
+    exactly these numbers and the exact rational result is well defined)."""
     pts = []
     for _ in range(n):
-        row = [rng.uniform(-mag, mag) for _ in range(3)]
+        if dtype in _INT_RANGE:
+            hi = int(min(_INT_RANGE[dtype], max(1, mag)))
+            lo = 0 if dtype == 'uint8' else -hi
+            row = [float(rng.randint(lo, hi)) for _ in range(3)]
+        else:
+            m = min(mag, 1e3) if dtype == 'float16' else mag
+            row = [float(np.dtype(dtype).type(rng.uniform(-m, m))) for _ in range(3)]
         if ncols == 6:
             row += [float(rng.randint(0, 255)) for _ in range(3)]
         pts.append(row)
     return pts
+
+
+SCALES = [2.5, 0.1, -3.0, 1000.0, 0.001, 1.0, 7, 0.0, -1.0]
+
+
+def gen_program(rng, n, kind='valid'):
+    """A program on the SAME PoseTransform objects (ids 0..n-1 = fresh copies of the case's poses; every inverse /
+    compose appends its result as a new id).  'laws' re-checks the group laws on an object as it is at that moment."""
+    prog, size = [], n
+
+    def pick():
+        return rng.randrange(size)
+    template = rng.choice(['inv_rescale', 'rescale_inverse', 'random', 'random', 'traj'])
+    if n == 0:
+        return []
+    if template == 'inv_rescale':          # invert, rescale the pose, invert again
+        i = pick()
+        prog += [['inverse', i], ['rescale', i, rng.choice(SCALES)], ['laws', i], ['inverse', i]]
+        size += 2
+    elif template == 'rescale_inverse':    # invert, rescale the INVERSE in place, invert it back (kapture_import_4seasons)
+        i = pick()
+        prog += [['inverse', i], ['rescale', size, rng.choice(SCALES)], ['laws', size], ['inverse', size], ['laws', i]]
+        size += 2
+    elif template == 'traj':               # the same through Trajectories.inverse / trajectory_rescale_inplace
+        prog += [['traj', rng.choice([s for s in SCALES if s != 0.0])]]
+        size += 2 * n
+        prog += [['laws', pick()]]
+    for _ in range(rng.choice([1, 2, 3, 4]) if template != 'random' else rng.choice([3, 4, 5, 6])):
+        op = rng.choice(['inverse', 'inverse', 'rescale', 'rescale', 'compose', 'laws', 'laws'])
+        if size >= 9 and op in ('inverse', 'compose'):
+            op = 'laws'
+        if op == 'inverse':
+            prog.append(['inverse', pick()])
+            size += 1
+        elif op == 'rescale':
+            prog.append(['rescale', pick(), rng.choice(SCALES)])
+        elif op == 'compose':
+            prog.append(['compose', [pick() for _ in range(rng.choice([2, 2, 3]))]])
+            size += 1
+        else:
+            prog.append(['laws', pick()])
+    prog.append(['laws', pick()])
+    return prog
 
 
 def _valid_case(rng, n=None, qcls=None, tcls=None):
@@ -141,8 +197,10 @@ def _valid_case(rng, n=None, qcls=None, tcls=None):
     mag = rng.choice([1.0, 1e3, 1e6, 1e-2])
     splits = sorted(rng.sample(range(1, n), min(n - 1, 2))) if n > 1 else []
     inv_of = sorted(rng.sample(range(n), min(n, 2)))
-    return {'kind': 'valid', 'direct_max': rng.choice([2, 2, 2, 3]), 'poses': poses, 'points': gen_points(rng, npts, ncols, mag), 'ncols': ncols,
-            'splits': splits, 'inv_of': inv_of, 'qclass': qmode, 'tclass': tmode}
+    pdtype, playout = rng.choice(PDTYPES), rng.choice(PLAYOUTS)
+    return {'kind': 'valid', 'direct_max': rng.choice([2, 2, 2, 3]), 'poses': poses,
+            'points': gen_points(rng, npts, ncols, mag, pdtype), 'ncols': ncols, 'pdtype': pdtype, 'playout': playout,
+            'splits': splits, 'inv_of': inv_of, 'qclass': qmode, 'tclass': tmode, 'program': gen_program(rng, n)}
 
 
 def _malformed_case(rng):
@@ -164,9 +222,10 @@ def _malformed_case(rng):
         c['poses'][-1]['r'] = [0.0, 0.0, 0.0, 0.0]
     elif how == 'empty':
         c['poses'] = []
-        c['splits'], c['inv_of'] = [], []
+        c['splits'], c['inv_of'], c['program'] = [], [], []
     elif how == 'cols4':
         c['ncols'] = 4
+        c['pdtype'], c['playout'] = 'float64', 'C'
         c['points'] = [[rng.uniform(-1, 1) for _ in range(4)] for _ in range(max(1, len(c['points'])))]
     return c
 
@@ -272,11 +331,12 @@ class _Runner:
     def transform(self, obj, arr):
         before = _bits(obj)
         abytes, ashape = arr.tobytes(), arr.shape
-        rows_in = arr.tolist()
+        rows_in = arr.astype(float).tolist()
         spec_in = _spec_of(obj)
         res = None
         try:
             res = obj.transform_points(arr)
+            res_dtype = str(getattr(res, 'dtype', type(res).__name__))
             res = np.array(res, dtype=float)
             if res.ndim != 2 or res.shape[1] != 3 or res.shape[0] != arr.shape[0]:
                 out = {'status': 'ok', 'pts': res.tolist(), 'bad_shape': list(res.shape)}
@@ -290,15 +350,104 @@ class _Runner:
             self.mutations.append('transform_points(pose)')
         if arr.tobytes() != abytes or arr.shape != ashape:
             self.mutations.append('transform_points(points)')
-        self.calls.append({'op': 'transform', 'in': spec_in, 'rows': rows_in, 'ncols': int(ashape[1]), 'out': out})
+        self.calls.append({'op': 'transform', 'in': spec_in, 'rows': rows_in, 'ncols': int(ashape[1]), 'out': out,
+                           'in_dtype': str(arr.dtype)})
         return res if out['status'] == 'ok' and 'bad_shape' not in out else None
 
 
+def _history(R, case, X):
+    """Run case['program'] on fresh PoseTransform objects kept alive for the whole program (the pool; results are
+    appended).  Returns the trace for MPose.CHistory and the law records for the oracle."""
+    import kapture
+    pool = [R.mk(s) for s in case['poses']]
+    n0 = len(pool)
+    init = [_spec_of(o) for o in pool]
+    steps, laws = [], []
+    X64 = X[:, 0:3].astype(float) if X.shape[1] in (3, 6) else np.zeros((0, 3))
+
+    def snapshot():
+        specs = [_spec_of(o) for o in pool]
+        return specs if all(_finite_pose(sp) for sp in specs) else None
+
+    for st in case.get('program', []):
+        op = st[0]
+        before = [_bits(o) for o in pool]
+        allowed = set()                     # ids whose value may change in this step
+        prim, ok = [], True
+        try:
+            if op == 'inverse':
+                prim = [['inverse', st[1]]]
+                pool.append(pool[st[1]].inverse())
+            elif op == 'compose':
+                prim = [['compose', list(st[1])]]
+                pool.append(kapture.PoseTransform.compose([pool[i] for i in st[1]]))
+            elif op == 'rescale':
+                prim = [['rescale', st[1], st[2]]]
+                allowed = {st[1]}
+                pool[st[1]].rescale(st[2])
+            elif op == 'traj':              # Trajectories.inverse(); trajectory_rescale_inplace(); Trajectories.inverse()
+                base = len(pool)
+                prim = ([['inverse', ts] for ts in range(n0)] + [['rescale', base + ts, st[1]] for ts in range(n0)]
+                        + [['inverse', base + ts] for ts in range(n0)])
+                allowed = set(range(base, base + n0))
+                traj = kapture.Trajectories()
+                for ts in range(n0):
+                    traj[ts, 'cam'] = pool[ts]
+                inv = traj.inverse()
+                pool.extend(inv[ts, 'cam'] for ts in range(n0))
+                kapture.trajectory_rescale_inplace(inv, st[1])
+                back = inv.inverse()
+                pool.extend(back[ts, 'cam'] for ts in range(n0))
+            elif op == 'laws':
+                o = pool[st[1]]
+                e = {'id': st[1], 'p': _spec_of(o)}
+                I = R.inverse(o)
+                fresh = R.inverse(R.mk(e['p']))        # the same value, no history
+                e['I'] = _spec_of(I) if I is not None else None
+                e['I_fresh'] = _spec_of(fresh) if fresh is not None else None
+                if I is not None:
+                    pI, Ip, II = R.compose([o, I]), R.compose([I, o]), R.inverse(I)
+                    e['pI'] = _spec_of(pI) if pI is not None else None
+                    e['Ip'] = _spec_of(Ip) if Ip is not None else None
+                    e['II'] = _spec_of(II) if II is not None else None
+                    Yo = R.transform(o, X64)
+                    bk = R.transform(I, Yo) if Yo is not None else None
+                    e['back'] = bk.tolist() if bk is not None else None
+                laws.append(e)
+                # the law calls must not change any object either
+                if [_bits(x) for x in pool] != before:
+                    R.mutations.append('inverse/compose/transform_points (object with history)')
+                continue
+        except Exception as ex:  # observed outcome
+            ok = False
+            laws.append({'id': None, 'raised': f'{op}: {type(ex).__name__}'})
+        after = [_bits(x) for x in pool[:len(before)]]
+        if any(a != b for i, (a, b) in enumerate(zip(after, before)) if i not in allowed):
+            R.mutations.append(op + ' (changed another live object)')
+        snap = snapshot() if ok else None
+        steps.append({'ops': prim, 'store': snap})
+        if snap is None:
+            break
+    R.calls.append({'op': 'history', 'init': init, 'steps': steps, 'out': {'status': 'ok'}})
+    return laws
+
+
 def _arr(case):
-    pts = case['points']
-    if not pts:
-        return np.zeros((0, case['ncols']), dtype=float)
-    return np.array(pts, dtype=float)
+    """The point array handed to the code: dtype and memory layout from the case, values exactly case['points']."""
+    pts, ncols = case['points'], case['ncols']
+    dt = case.get('pdtype', 'float64')
+    a = np.array(pts, dtype=float).reshape(-1, ncols).astype(dt)
+    assert a.astype(float).tolist() == [list(map(float, r)) for r in pts], 'points not representable in ' + dt
+    layout = case.get('playout', 'C')
+    if layout == 'F':
+        a = np.asfortranarray(a)
+    elif layout == 'strided':            # every second row / column of a larger array
+        big = np.zeros((2 * a.shape[0] + 1, 2 * ncols + 1), dtype=dt)
+        big[::2, ::2][:a.shape[0], :ncols] = a
+        a = big[::2, ::2][:a.shape[0], :ncols]
+    elif layout == 'reversed':           # negative stride
+        a = np.ascontiguousarray(a[::-1])[::-1]
+    return a
 
 
 def run_impl(case, ctx):
@@ -315,6 +464,7 @@ def run_impl(case, ctx):
         if objs:
             R.compose(objs[:1])
             R.compose(list(reversed(objs)))
+        _history(R, case, X)
         return {'calls': R.calls, 'law': None, 'mutations': R.mutations}
     # associativity: any bracketing gives the same pose
     for k in case['splits']:
@@ -341,7 +491,7 @@ def run_impl(case, ctx):
         IC = R.compose(invs) if all(x is not None for x in invs) else None
         law['IC'] = _spec_of(IC) if IC is not None else None
     # points
-    law['X'] = X[:, 0:3].tolist()
+    law['X'] = X[:, 0:3].astype(float).tolist()
     Y = R.transform(C, X) if C is not None else None
     law['Y'] = Y.tolist() if Y is not None else None
     Z = X
@@ -357,6 +507,7 @@ def run_impl(case, ctx):
     nq = math.sqrt(sum(v * v for v in q))
     Yn = R.transform(R.mk({'r': [v / nq for v in q], 't': case['poses'][i0]['t']}), X)
     law['single'] = {'i': i0, 'Y1': Y1.tolist() if Y1 is not None else None, 'Yn': Yn.tolist() if Yn is not None else None}
+    law['history'] = _history(R, case, X)
     return {'calls': R.calls, 'law': law, 'mutations': R.mutations}
 
 
@@ -419,6 +570,30 @@ def oracle(case, obs):
         d = _same_pose(law['CI'], law['IC'], 2 * ts)
         if d:
             return f'inverse of a composition differs from the reversed composition of inverses ({d})'
+    # the same laws on objects with a history (earlier inverse / rescale / compose calls on the same object): they
+    # must hold for the pose as it is NOW, and inverse() must agree with inverse() of a fresh pose of the same value
+    X0 = np.array(law['X']).reshape(-1, 3)
+    for e in law.get('history') or []:
+        if e.get('raised'):
+            return 'call on a valid pose with a history raised (' + e['raised'] + ')'
+        p, s = e['p'], _tmax(e['p'])
+        tag = ' (object with earlier calls on it)'
+        d = _same_pose(e.get('I'), e.get('I_fresh'), 2 * s)
+        if d:
+            return f'inverse() depends on earlier calls, not only on the current r,t ({d})'
+        d = _same_pose(e.get('pI'), ident, 2 * s)
+        if d:
+            return f'pose composed with its inverse is not the identity ({d})' + tag
+        d = _same_pose(e.get('Ip'), ident, 2 * s)
+        if d:
+            return f'inverse composed with the pose is not the identity ({d})' + tag
+        d = _same_pose(e.get('II'), p, s)
+        if d:
+            return f'inverting twice does not return the pose ({d})' + tag
+        if e.get('back') is None:
+            return 'transform_points did not return' + tag
+        if len(X0) and np.max(np.abs(np.array(e['back']).reshape(-1, 3) - X0)) > TOL * 2 * (float(np.max(np.abs(X0))) + s):
+            return 'transform by the inverse does not undo the transform' + tag
     X, Y, Z = np.array(law['X']).reshape(-1, 3), law['Y'], law['Z']
     if Y is None or Z is None or law['back'] is None:
         return 'transform_points did not return'
@@ -488,6 +663,17 @@ def encode(case, obs):
     for c in obs['calls']:
         if c['op'] == 'compose':
             terms.append('CCompose %s %s' % (kv.clist(_copose(s) for s in c['in']), _cout_pose(c['out'])))
+        elif c['op'] == 'history':
+            def hop(o):
+                if o[0] == 'inverse':
+                    return 'HInverse %d%%nat' % o[1]
+                if o[0] == 'compose':
+                    return 'HCompose %s' % kv.clist('%d%%nat' % i for i in o[1])
+                return 'HRescale %d%%nat %s' % (o[1], _cf(o[2]))
+            steps = kv.clist(kv.cpair(kv.clist(hop(o) for o in st['ops']),
+                                      'None' if st['store'] is None else '(Some %s)' % kv.clist(_copose(x) for x in st['store']))
+                             for st in c['steps'])
+            terms.append('CHistory %s %s' % (kv.clist(_copose(x) for x in c['init']), steps))
         elif c['op'] == 'chain':
             terms.append('CChain %s %s' % (kv.clist(_copose(s) for s in c['in']),
                                            kv.clist(_cout_pose(o) for o in c['outs'])))
